@@ -94,6 +94,20 @@ def gen(rng, tier):
         for w in perturb(t) + extra:
             add([(a, (w if a == n else b)) for a, b in STD], "perturbed-type")
             add([(n, w)], "perturbed-type")
+    # look-alike member names (a standard name padded with white space, in another case, with an invisible or full-width
+    # character) with the standard type — and the domain VALUE keyed by the standard name, by the declared name, or by both
+    for i, (n, t) in enumerate(STD):
+        for alias in (n + " ", " " + n, n + "\n", "\t" + n, n + "\u00a0", n.upper(), n.capitalize(), n[0].upper() + n[1:], n + "\u200b", "\ufeff" + n, chr(ord(n[0]) + 0xFEE0) + n[1:], n + "_", "_" + n):
+            if alias == n:
+                continue
+            for ctx in ([(alias, t)], [(a, b) if a != n else (alias, t) for a, b in STD]):
+                std_vals = {a: VAL.get(a if a != alias else n, "v") for a, _ in ctx}
+                by_std = {(n if a == alias else a): v for a, v in std_vals.items()}
+                both = dict(std_vals)
+                both[n] = VAL.get(n, "v")
+                add(ctx, "look-alike-name", values=by_std)
+                add(ctx, "look-alike-name", values=std_vals)
+                add(ctx, "look-alike-name", values=both)
     # longer than five: the five standard fields (or a well-formed selection) followed / interleaved / preceded by foreign
     # or repeated members — every member is examined, however many there are
     for base in (list(STD), STD[:4], [STD[0], STD[2], STD[4]]):
